@@ -27,11 +27,14 @@ From Verif.Proofs Require Import LifecycleProofs.
 Local Open Scope string_scope.
 
 (* 1. Every start site of the regenerated inventory is known to the model with the tracking the model
-   relies on; a class awaited through a WaitGroup is registered with one at its site. *)
+   relies on; a class awaited through a WaitGroup is registered with one at its site; a class the model
+   takes to be registered under lock + flag (provider workers, the refresh manager's loop and requests)
+   is registered after an RLock() in the same function. *)
 Theorem c14_inventory_covered :
   forall s, In s sites ->
-    exists r, site_row s = Some r /\ gs_track s = r_track r /\
-      (class_await (r_class r) = AwWaitGroup -> gs_track s <> "untracked").
+    exists r, site_row s = Some r /\ gs_track s = r_track r /\ gs_guard s = r_guard r /\
+      (class_await (r_class r) = AwWaitGroup -> gs_track s <> "untracked") /\
+      (class_guarded (r_class r) = true -> gs_guard s <> "").
 Proof. exact inventory_covered. Qed.
 Print Assumptions c14_inventory_covered.
 
